@@ -112,7 +112,10 @@ func (a *AuthorRequest) Validate() error {
 			return err
 		}
 	}
-	return nil
+	if err := fitsArgCount(a.Args); err != nil {
+		return err
+	}
+	return fitsWire(maxUint8Len, a.User, a.Port, a.RemAddr)
 }
 
 // MarshalBinary encodes AuthroRequest into tacacs bytes
@@ -291,7 +294,10 @@ func (a *AuthorReply) Validate() error {
 			return err
 		}
 	}
-	return nil
+	if err := fitsArgCount(a.Args); err != nil {
+		return err
+	}
+	return fitsWire(maxUint16Len, a.ServerMsg, a.Data)
 }
 
 // MarshalBinary encodes AuthorReply into tacacs bytes
